@@ -178,6 +178,8 @@ def main():
             continue
         # behaviour: identical outcome lines for the evaluators in S
         want_evs = {EVNAME[f] for f in s}
+        if "eval_number" in s:
+            want_evs.add("numberfrom")
         mism = None
         n_cmp = 0
         for idx, c in enumerate(cases):
